@@ -1,5 +1,6 @@
 import PwVerif.Model.Macro
 import PwVerif.Model.Preview
+import PwVerif.Model.MacroLabels
 import PwVerif.Model.Proto
 open PwVerif PwVerif.Macro PwVerif.Proto
 
@@ -204,12 +205,20 @@ def flatOuts (n : Node) (σ : St) : Nat → Val :=
   let env := evalFlat r.1 0 (fun _ => .nd)
   fun o => (r.2 o).eval env
 
+/-- some keyword argument refers to the child itself or to a later child (a data cycle closed by the
+creator, only possible with a hand-wired flow): the body is not a DAG, `denote`/`flat` do not apply -/
+partial def hasFwd : Node → Bool
+  | .leaf _ _ => false
+  | .mac _ body _ _ _ =>
+    (idxs body).any fun (j, n) =>
+      hasFwd n || n.srcs.any fun s => match s with | .out j' _ => decide (j ≤ j') | _ => false
+
 def doRun (s : DS) (n : Node) (σ : St) : DS × List String :=
   if refused n σ then ({ s with st := some σ }, ["run refused", "st " ++ showSt n σ]) else
   match run n σ with
   | none => ({ s with dead := true }, ["run fail"])
   | some σ' =>
-    let extra := if s.pristine then
+    let extra := if s.pristine && !hasFwd n then
         [s!"den [{showVals (denote n (σ.get .inp)) n.nout}]", s!"flat [{showVals (flatOuts n σ) n.nout}]"]
       else []
     ({ s with st := some σ' }, ["run ok", "st " ++ showSt n σ'] ++ extra)
@@ -286,6 +295,21 @@ def step (s : DS) (ws : List String) : DS × List String :=
         let σ' := (setOutAt n σ p o ((σ.atPath p).get .out o)).1
         ({ s with st := some σ' }, ["st " ++ showSt n σ'])
     | _, _ => (s, ["bad-op"])
+  | "lab" :: selfArg :: n :: texts =>
+    -- scraped output labels of a creator: lab <first parameter> <n> <source text of each returned expression>
+    match n.toNat? with
+    | some n =>
+      if texts.length ≠ n then (s, ["bad-op"]) else
+      let rets : List FuncWrap.RetStmt :=
+        match texts with
+        | [] => []
+        | [t] => [.value (.single t)]
+        | ts => [.value (.tuple ts)]
+      match MacroLabels.scrapedLabels selfArg rets with
+      | .ok (some ls) => (s, ["lab [" ++ ",".intercalate ls ++ "]"])
+      | .ok none => (s, ["lab none"])
+      | .error _ => (s, ["lab err"])
+    | none => (s, ["bad-op"])
   | "pv" :: rest =>
     -- per-class preview: pv <variant> <ncls> (<parent|-> <fn|-> <declared: - | n l*>)* <nfn> (<f> <n> l*)* <nreq> c*
     match pPreview rest with
